@@ -164,6 +164,31 @@ def check(an, rep, tier):
             else:
                 check_tt_returns(
                     rep, [r], lambda run: [Poly.sym('mnew')] * run.d)
+    # --- P-grid-size: wherever a full index range arange(k) is mapped to grid
+    # nodes, the grid that is asked for has exactly k nodes (re-sampling on a
+    # new grid of m nodes evaluates at the nodes of THAT grid)
+    from .common import cmp3 as _cmp3g
+    for r in runs:
+        if r.qualname not in ('func.func_gets', 'func_full.func_gets_full'):
+            continue
+        for (q_, a_, _res), meta_ in zip(r.I.call_log, r.I.call_meta):
+            if q_ != 'grid.ind_to_poi' or not isinstance(a_, dict):
+                continue
+            if not (meta_.get('caller') or '').startswith(
+                    r.qualname.split('.')[0] + '.'):
+                continue
+            Iv, nv = a_.get('I'), a_.get('n')
+            if Iv is None or nv is None or Iv.k != 'arr' or \
+                    Iv.dims is None or not Iv.dims or nv.k != 'int' or \
+                    Iv.idx not in ('arange',):
+                continue
+            st_g = _cmp3g(nv.p, Iv.dims[0]) if nv.p is not None else 'unknown'
+            rep.add('P-grid-size', r.qualname, 'nodes for the index range '
+                    'arange(%r) are taken from a grid of that many nodes (%s)'
+                    % (Iv.dims[0], r.tag()), st_g,
+                    '' if st_g == 'ok' else 'the full index range of %r '
+                    'values is mapped to the nodes of a grid with %r nodes'
+                    % (Iv.dims[0], nv.p))
     # --- F-percore: with per-core points (2-D X) the basis callback is asked
     # once per core (a basis matrix that is built for the first core and then
     # re-used fits the other cores against the wrong points); counted in the
@@ -263,6 +288,7 @@ def check(an, rep, tier):
     from .. import rules_proto as _RPZ
     _RPZ.check_none_vs_zero(prog, rep, modules={'func', 'func_full'})
     rep.floor('F-basis-init', 2, 'basis initialisation')
+    rep.floor('P-grid-size', 4, 'grid sizes of index ranges')
     from .. import rules_formula as _RF
     _RF.check_basis_values(prog, rep, 'func.func_basis', 'm', 'X')
     rep.floor('F-basis', 4, 'Chebyshev basis values')
